@@ -367,6 +367,11 @@ let check_call (f : string) (a : sx list) : string option =
   (* ---- contexts *)
   | "ctx", "derive_add", [r; x; c] ->
       cmp addctx_eqb show_addctx (derive_add_ctx (readctx_sx unit_sx r) (n_sx x)) (addctx_sx c)
+  | "ctx", "split", [r; v; bare] ->
+      let a = readctx_sx unit_sx (L [A "R"; L [A "add_clock"; field "add_clock" r]; L [A "rm_clock"; field "rm_clock" r]; L [A "val"; L []]])
+      and b = readctx_sx unit_sx bare in
+      if not (vc_eqb a.add_clock b.add_clock && vc_eqb a.rm_clock b.rm_clock) then Some "split changes the clocks"
+      else if show_sx (field "val" r) <> show_sx v then Some "split changes the value" else None
   | "ctx", "derive_rm", [r; c] -> cmpvc (derive_rm_ctx (readctx_sx unit_sx r)) (rmctx_sx c)
   (* ---- orswot *)
   | "orswot", "apply", [s; o; r] -> cmp orswot_eqb show_orswot (oapply (orswot_sx s) (oop_sx o)) (orswot_sx r)
@@ -494,6 +499,19 @@ let check_call (f : string) (a : sx list) : string option =
   | "merkle", "read", [s; hs; _] ->
       let st = merkle_sx s in
       cmp nset_eqb show_nset (nset_of_list (List.map fst (nmap_to_list (mk_read st)))) (nset_of_list (List.map hid (seq hs)))
+  | "merkle", "content", [s; hn; ns; vs; emp] ->
+      (* hashes_and_nodes / nodes / values / is_empty of read(): the heads with their nodes *)
+      let st = merkle_sx s in
+      let m = List.sort compare (List.map (fun (h, nd) -> (int_of_n h, node_key nd)) (nmap_to_list (mk_read st))) in
+      let i_hn = List.sort compare (List.map (fun p -> match seq p with [h; nd] -> (int_of_n (hid h), node_key (mnode_sx nd)) | _ -> bad "content entry") (seq hn)) in
+      let i_ns = List.sort compare (List.map (fun nd -> node_key (mnode_sx nd)) (seq ns)) in
+      let i_vs = List.sort compare (List.map (fun v -> int_of_n (bytes_n v)) (seq vs)) in
+      let show l = String.concat ";" (List.map (fun (h, (cs, v)) -> Printf.sprintf "%d:([%s],%d)" h (String.concat "," (List.map string_of_int cs)) v) l) in
+      if i_hn <> m then Some (Printf.sprintf "model=%s impl(hashes_and_nodes)=%s" (show m) (show i_hn))
+      else if i_ns <> List.sort compare (List.map snd m) then Some "nodes() differs from the nodes of the heads"
+      else if i_vs <> List.sort compare (List.map (fun (_, (_, v)) -> v) m) then Some "values() differs from the values of the heads"
+      else if bool_sx emp <> (m = []) then Some "Content::is_empty differs"
+      else None
   | "merkle", "num_nodes", [s; r] -> cmp (=) string_of_int (int_of_nat (mk_num_nodes (merkle_sx s))) (int_sx r)
   | "merkle", "num_orphans", [s; r] -> cmp (=) string_of_int (int_of_nat (mk_num_orphans (merkle_sx s))) (int_sx r)
   | "merkle", "node", [s; h; r] ->
@@ -608,6 +626,14 @@ let coq_oop = function
   | OAdd (d, ms) -> "(OAdd " ^ coq_dot d ^ " " ^ coq_nlist ms ^ ")"
   | ORm (c, ms) -> "(ORm " ^ coq_vc c ^ " " ^ coq_nlist ms ^ ")"
 let coq_mv s = "[" ^ String.concat "; " (List.map (fun (c, v) -> "(" ^ coq_vc c ^ ", " ^ coq_n v ^ ")") s) ^ "]"
+let coq_cmap (cv : 'v -> string) (s : 'v cmap) =
+  "(CMap " ^ coq_vc s.mclock ^ " (nmap_of_list [" ^
+  String.concat "; " (List.map (fun (k, e) -> "(" ^ coq_n k ^ ", MEntry " ^ coq_vc e.eclock ^ " " ^ cv e.eval ^ ")") (nmap_to_list s.mentries)) ^ "]) (cmap_of_list [" ^
+  String.concat "; " (List.map (fun (c, ks) -> "(" ^ coq_vc c ^ ", nset_of_list " ^ coq_nlist (nset_to_list ks) ^ ")") (cmap_to_list s.mdeferred)) ^ "]))"
+let coq_mop (co : 'o -> string) = function
+  | MUp (d, k, o) -> "(MUp " ^ coq_dot d ^ " " ^ coq_n k ^ " " ^ co o ^ ")"
+  | MRm (c, ks) -> "(MRm " ^ coq_vc c ^ " (nset_of_list " ^ coq_nlist (nset_to_list ks) ^ "))"
+let coq_mvop = function MVPut (c, v) -> "(MVPut " ^ coq_vc c ^ " " ^ coq_n v ^ ")"
 let coq_case (f : string) (a : sx list) : string option =
   try
     (match f, a with
@@ -627,6 +653,16 @@ let coq_case (f : string) (a : sx list) : string option =
      | "gset.merge", [s; o; r] -> Some ("nset_eqb (gs_merge (nset_of_list " ^ coq_nlist (nset_to_list (nset_sx s)) ^ ") (nset_of_list " ^ coq_nlist (nset_to_list (nset_sx o)) ^ ")) (nset_of_list " ^ coq_nlist (nset_to_list (nset_sx r)) ^ ")")
      | "orswot.validate_merge", [s; o; r] -> Some ("Bool.eqb (ovalidate_merge " ^ coq_orswot (orswot_sx s) ^ " " ^ coq_orswot (orswot_sx o) ^ ") " ^ string_of_bool (okerr r))
      | "mvreg.reset", [s; c; r] -> Some ("mv_eqb (mvreset " ^ coq_mv (mv_sx s) ^ " " ^ coq_vc (vc_sx c) ^ ") " ^ coq_mv (mv_sx r))
+     | "mapmv.apply", [s; o; r] ->
+         Some ("cmap_eqb mv_dec (mapply mvreg_valops " ^ coq_cmap coq_mv (cmap_sx mv_inst s) ^ " " ^ coq_mop coq_mvop (mop_sx mv_inst o) ^ ") " ^ coq_cmap coq_mv (cmap_sx mv_inst r))
+     | "mapmv.merge", [s; o; r] ->
+         Some ("cmap_eqb mv_dec (mmerge mvreg_valops " ^ coq_cmap coq_mv (cmap_sx mv_inst s) ^ " " ^ coq_cmap coq_mv (cmap_sx mv_inst o) ^ ") " ^ coq_cmap coq_mv (cmap_sx mv_inst r))
+     | "mapor.apply", [s; o; r] ->
+         Some ("cmap_eqb orswot_dec (mapply orswot_valops " ^ coq_cmap coq_orswot (cmap_sx or_inst s) ^ " " ^ coq_mop coq_oop (mop_sx or_inst o) ^ ") " ^ coq_cmap coq_orswot (cmap_sx or_inst r))
+     | "mapor.merge", [s; o; r] ->
+         Some ("cmap_eqb orswot_dec (mmerge orswot_valops " ^ coq_cmap coq_orswot (cmap_sx or_inst s) ^ " " ^ coq_cmap coq_orswot (cmap_sx or_inst o) ^ ") " ^ coq_cmap coq_orswot (cmap_sx or_inst r))
+     | "mapor.reset", [s; c; r] ->
+         Some ("cmap_eqb orswot_dec (mreset orswot_valops " ^ coq_cmap coq_orswot (cmap_sx or_inst s) ^ " " ^ coq_vc (vc_sx c) ^ ") " ^ coq_cmap coq_orswot (cmap_sx or_inst r))
      | "orswot.apply", [s; o; r] -> Some ("orswot_eqb (oapply " ^ coq_orswot (orswot_sx s) ^ " " ^ coq_oop (oop_sx o) ^ ") " ^ coq_orswot (orswot_sx r))
      | "orswot.merge", [s; o; r] -> Some ("orswot_eqb (omerge " ^ coq_orswot (orswot_sx s) ^ " " ^ coq_orswot (orswot_sx o) ^ ") " ^ coq_orswot (orswot_sx r))
      | "orswot.reset", [s; c; r] -> Some ("orswot_eqb (oreset " ^ coq_orswot (orswot_sx s) ^ " " ^ coq_vc (vc_sx c) ^ ") " ^ coq_orswot (orswot_sx r))
